@@ -164,31 +164,34 @@ Definition frame_values (fr : frame) : list Z := decode (stype_of_code (ty (f_sh
 
 Definition acc_bytes (s : shape) : Z := align8 (bytes_of_image (set_type s code_f32) + header_bytes).
 
-(* the accumulator after summing the frames w (first frame of w gives id and shape) *)
-Definition sum_frame (w : list frame) : option oframe :=
+(* placeholders for the empty window (never produced: windows of the specification are non-empty) *)
+Definition dummy_shape : shape := mkShape 0 0 0 0 0 0 0 0 0.
+Definition dummy_oframe : oframe := mkOFrame 0 0 dummy_shape [].
+Definition dummy_frame : frame := mkFrame 0 dummy_shape [].
+
+(* the accumulator after summing the frames w, started from zero (the first frame of w gives id and shape) *)
+Definition sum_frame (w : list frame) : oframe :=
   match w with
-  | [] => None
+  | [] => dummy_oframe
   | f0 :: _ =>
       let sh := set_type (f_shape f0) code_f32 in
-      Some (mkOFrame (acc_bytes (f_shape f0)) (f_id f0) sh
-                     (acc_frames (repeat f32_zero (Z.to_nat (npx sh))) (map frame_values w)))
+      mkOFrame (acc_bytes (f_shape f0)) (f_id f0) sh
+               (acc_frames (repeat f32_zero (Z.to_nat (npx sh))) (map frame_values w))
   end.
 
-(* the frame emitted for a complete window w *)
-Definition mean_frame (w : list frame) : option oframe :=
-  match sum_frame w with
-  | Some a => Some (normalize_frame a (Z.of_nat (length w)))
-  | None => None
-  end.
+(* the frame emitted for a complete window w: the sum times 1/(number of frames) *)
+Definition mean_frame (w : list frame) : oframe :=
+  normalize_frame (sum_frame w) (Z.of_nat (length w)).
 
-(* window i of size k of the frame sequence *)
+(* window i of size k of the frame sequence: frames [i*k, (i+1)*k) *)
 Definition window (k : nat) (i : nat) (fs : list frame) : list frame := firstn k (skipn (i * k)%nat fs).
 
-Definition opt_list {A} (o : option A) : list A := match o with Some a => [a] | None => [] end.
+(* the trailing incomplete window: frames [(N/k)*k, N) *)
+Definition remainder (k : nat) (fs : list frame) : list frame := skipn ((length fs / k) * k)%nat fs.
 
-(* what the filter must have sent to the output ring after a whole acquisition of frames fs:
-   one mean frame per complete window, then the sum frame of the remainder if there is one *)
+(* what the output ring must have received after a whole acquisition of frames fs:
+   one mean frame per complete window, in order, then -- if N mod k <> 0 -- one frame holding the sum
+   of the trailing incomplete window *)
 Definition spec_outputs (k : nat) (fs : list frame) : list oframe :=
-  let n := length fs in
-  flat_map (fun i => opt_list (mean_frame (window k i fs))) (seq 0 (n / k)%nat)
-  ++ opt_list (sum_frame (skipn ((n / k) * k)%nat fs)).
+  map (fun i => mean_frame (window k i fs)) (seq 0 (length fs / k)%nat)
+  ++ (if (length fs mod k =? 0)%nat then [] else [sum_frame (remainder k fs)]).
